@@ -130,15 +130,19 @@ def type_chain_projects(rng, quick):
     J = "JSIGHT 0.3\n"
     out = []
     errs = ['"bad": 1 // {type: "string"}', '"bad": "x" // {min: 1}', '"bad": @nope', '"bad": 1 // {enum: @nope}', '"bad": 1, "bad": 2', '"bad": [1] // {minItems: "x"}',
-            '"bad": 1 // {or: ["@nope", "integer"]}', '"bad": 1.5 // {precision: 0}']
+            '"bad": 1 // {or: ["@nope", "integer"]}', '"bad": 1.5 // {precision: 0}', '"bad": 1 // {min: 5}']
     for n in ([2, 3, 4] if quick else [2, 3, 4, 6]):
         for e in errs:
-            for layout in ("onefile", "include-mid", "reverse"):
+            for layout in ("onefile", "include-mid", "reverse", "cycle-first", "cycle-last"):
                 pad = "".join('    "p%d": "some longer filler value %d",\n' % (i, i) for i in range(rng.randint(5, 40)))
                 last = "TYPE @t%d\n  {\n%s    %s\n  }\n" % (n, pad, e)
                 mids = ["TYPE @t%d\n  @t%d\n" % (i, i + 1) if i % 2 else 'TYPE @t%d\n  {"x": @t%d}\n' % (i, i + 1) for i in range(n)]
                 use = "GET /x\n  200 @t0\n"
-                if layout == "onefile":
+                if layout.startswith("cycle"):
+                    # the chain is closed: the last type refers back to the first; the faulty type is declared first / last
+                    last_c = "TYPE @t%d\n  {\n%s    \"back\": @t0, // {optional: true}\n    %s\n  }\n" % (n, pad, e)
+                    out.append([("a.jst", J + use + (last_c + "".join(mids) if layout == "cycle-first" else "".join(mids) + last_c))])
+                elif layout == "onefile":
                     out.append([("a.jst", J + use + mids[0] + last + "".join(mids[1:]))])
                 elif layout == "reverse":
                     out.append([("a.jst", J + last + "".join(reversed(mids)) + use)])
@@ -273,6 +277,14 @@ def run(res, tier, seed, replay):
                 for order_ in (0, 1):
                     mac_ = "MACRO @a\n(\n  %s\n)\nMACRO @b\n(\n  PASTE @nowhere\n)\n" % body_
                     projects.append([("a.jst", "JSIGHT 0.3\n" + (mac_ + use_ if order_ else use_ + mac_))])
+        # description lines that are one or two digits; an annotation that is cut short by a comment at once
+        for ln_ in ("5", "42", "1", "59", "5\n", "4\n2", "200", "20", "2x"):
+            for tail_ in ("", "\n", "\nGET /b\n  200 any\n"):
+                projects.append([("a.jst", "JSIGHT 0.3\nGET /a\n  Description\n    first line\n" + ln_ + tail_)])
+                projects.append([("a.jst", "JSIGHT 0.3\nINFO\n  Title \"t\"\n  Description\n    first line\n    " + ln_ + tail_)])
+        for ann_ in ("//#", "//# TODO", "// #", "//#\n", "/*#*/", "// a#", "//", "/**/", "/* */", "//\t#x"):
+            for head_ in ("GET /x ", "GET /x\n  200 any ", "SERVER @s ", "TYPE @t ", "TAG @g "):
+                projects.append([("a.jst", "JSIGHT 0.3\n" + head_ + ann_ + "\n")])
         projects.append([("a.jst", "JSIGHT 0.3\nURL /a\n(\n  INCLUDE empty.jst\n)\n"), ("empty.jst", "")])
         projects.append([("a.jst", "JSIGHT 0.3\nINCLUDE empty.jst\nGET /a\n  200 any\n"), ("empty.jst", "")])
         from . import c07 as M7
